@@ -18,8 +18,9 @@ Shape(e) == [reac |-> e.reac, prod |-> e.prod, ireac |-> e.ireac, iprod |-> e.ip
 
 Step(e) ==
     CASE e.ev = "AddReaction" -> AddReaction(Shape(e), e.kv) /\ UNCHANGED cfg
-      [] e.ev = "SetState"    -> SetState(e.subst, e.c) /\ UNCHANGED cfg
-      [] e.ev = "Feed"        -> Feed(e.F, e.cf) /\ UNCHANGED cfg
+      [] e.ev = "SetState"    -> SetState(e.subst, e.c, e.phase) /\ UNCHANGED cfg
+      [] e.ev = "Feed"        -> Feed(e.F, e.cf, e.order, e.usermap) /\ UNCHANGED cfg
+      [] e.ev = "Reassign"    -> Reassign(e.i, e.kv) /\ UNCHANGED cfg
       [] e.ev = "Build"       -> Build(e.cfg)
       [] OTHER                -> FALSE
 
